@@ -8,6 +8,8 @@ import random
 from . import c02_e2 as b2
 from . import c02_e3 as b3
 from . import c02_rerun as rr
+from stepup.core.enums import FileState
+
 from . import common, e2, e3
 from .c02_witness import VERDICTS, WITNESSES
 
@@ -62,6 +64,8 @@ ASSUMPTIONS = [
 HEADER = ("From Coq Require Import List NArith Bool.\nImport ListNotations.\n"
           "From SV Require Import lib.Bytes model.Graph model.GraphDump model.GraphInv model.Commute.\n"
           "Open Scope N_scope.\n")
+HEADER_HZ = HEADER.replace("model.Commute.", "model.Commute model.Dispatch model.CommuteBuild.")
+HZ_CODE = {"D22": 22, "D23": 23, "D24": 24, "det": 1}
 
 
 def _cq_op(op):
@@ -114,6 +118,30 @@ def _fresh(g, r):
     return True
 
 
+def _hazards(g, r):
+    """Mirror of model/CommuteBuild.hazards on the real database (g.d = Impl._dump of the state the two
+    requests meet): the circumstances under which a request of a running step is known not to commute.
+      D22 stale-volatile-input  an input is supplied that is a stale node (detached, still owned) with a VOLATILE row
+      D23 stale-wired-input     ... a stale node that still has an incoming dependency edge
+      D24 recycle               define_step on a label whose node exists
+      det detached-issuer       the issuer's node is detached (its creator is being executed again)"""
+    hz = []
+    n = r[0]
+    inputs = r[3] if n == "define_step" else (r[2] if n == "amend_step" else ())
+    wired = {b for _a, b, _dy in g.d["deps"]}
+    stale = [p for p in inputs if _node_status(g, ("file", p)) == "stale"]
+    if any(g.fstate.get(p) == FileState.VOLATILE.value for p in stale):
+        hz.append("D22")
+    if any(g.fstate.get(p) != FileState.VOLATILE.value and ("file", p) in wired for p in stale):
+        hz.append("D23")
+    if n == "define_step" and _node_status(g, ("step", r[2])) != "absent":
+        hz.append("D24")
+    c = _issuer(r)
+    if c is not None and _node_status(g, c) != "attached":
+        hz.append("det")
+    return hz
+
+
 def _gen_pair(rng, g, running):
     c1, c2 = rng.sample(running, 2)
     pool = rng.sample(e2.FILES, rng.randint(2, 5))
@@ -158,6 +186,7 @@ async def _collect_state(seed, length, npairs, rng):
             fails_anyway = any(r[0] == "exec_end" and not r[5] and not r[6] for r in (r1, r2))
             rec["pairs"].append({"r1": r1, "r2": r2, "res": res, "verdict": verdict, "detail": detail,
                                  "kind": b2.pair_kind(r1, r2), "fresh": _fresh(g, r1) and _fresh(g, r2),
+                                 "hz": [_hazards(g, r1), _hazards(g, r2)],
                                  "fails_anyway": fails_anyway,
                                  "status": {p: _node_status(g, ("file", p))
                                             for p in sorted(b2.paths_of(r1) | b2.paths_of(r2))}})
@@ -257,6 +286,29 @@ def correspondence(ctx):
         ctx.add_failure("correspondence", "E2:both-orders", f"E2:both-orders:{p['kind']}",
                         f"model and implementation disagree on a pair applied in both orders (state {st['seed']})",
                         witness=dict(_wit(p), trace=[repr(o) for o in st["ops"]]))
+    # the hazard classification of the oracle (on the real database) against model/CommuteBuild.hazards
+    hchecks, hidx = [], []
+    for si, st in enumerate(states):
+        pairs = st["pairs"][:per_state]
+        if not pairs or (si % 2 and not ctx.thorough()):
+            continue
+        ops = common.coq_list([_cq_op(o) for o in st["ops"]])
+        cases = common.coq_list([f"({_cq_op(r)}, {common.coq_list([str(HZ_CODE[h]) for h in hz])})"
+                                 for p in pairs for r, hz in ((p["r1"], p["hz"][0]), (p["r2"], p["hz"][1]))])
+        hchecks.append(f"(let s := run_ops {ops} (init_st 3) in "
+                       f"forallb (fun c : op * list N => str_eqb (hazard_codes (fst c) s) (snd c)) {cases})")
+        hidx.append(si)
+        ctx.count("model-vs-impl hazard classifications", 2 * len(pairs))
+    badh = common.run_cases(ctx, "hazards", HEADER_HZ, hchecks, chunk=8)
+    ctx.traces_validated += len(hchecks) - len(badh)
+    for b in badh[:3]:
+        st = states[hidx[b]]
+        ctx.add_failure("correspondence", "E2:hazards", "E2:hazard-classes",
+                        f"model/CommuteBuild.hazards and the oracle's classification on the real database disagree "
+                        f"(state {st['seed']})",
+                        witness={"kind": "e2-hazards", "trace": [repr(o) for o in st["ops"]],
+                                 "requests": [[repr(p["r1"]), p["hz"][0], repr(p["r2"]), p["hz"][1]]
+                                              for p in st["pairs"][:per_state]]})
     # re-executed steps: every executed sequence against the model
     reruns = [r for r in _reruns(ctx) if "skip" not in r]
     rchecks = [_rerun_term(r) for r in reruns]
@@ -341,6 +393,55 @@ def _text_class(t1, t2):
     return "same-path-collision"
 
 
+# What each known stale-node scenario looks like when its OWN cause is at work: -j1 succeeds, the racing
+# schedule is refused exactly one request, of this issuer, through this RPC, with this exception class and
+# a message naming this path / these parties.  Any other difference between the two schedules of the same
+# scenario (another request refused, another class, the roles of the schedules exchanged, a refusal under
+# -j1) is a DIFFERENT violation and is reported under its own signature, never under the known one.
+SCENARIO_CAUSE = {
+    "stale_volatile_input": ("./sub.py", "define_step", "GraphError", r"File \(v\.txt\).*volatile.*step \(mkv\).*input.*step \(use\)"),
+    "stale_output_cycle": ("./a.py", "amend_step", "CyclicError", r"cyclic dependency"),
+    "recycle_subtree": ("./plan.py", "declare_static", "GraphError", r"File \(f\.txt\).*static by step \(\./plan\.py\).*built by step \(u\)"),
+}
+
+
+def _scenario_signature(name, r, known):
+    import re
+    exp = SCENARIO_CAUSE.get(name)
+    j1, j2 = r["j1"], r["j2"]
+    if exp and j1["cls"] == "ok" and not j1["rejected"] and j2["cls"].startswith("FAILED") and len(j2["rejected"]) == 1:
+        lab, rpc, exc, pat = exp
+        x = j2["rejected"][0]
+        if x[0] == lab and x[1] == rpc and x[2] == exc and re.search(pat, x[3]):
+            return known
+        return f"C02:scenario:{name}:other-refusal:{x[1]}:{x[2]}"
+    return f"C02:scenario:{name}:other-difference:j1={j1['cls']}:j2={j2['cls']}"
+
+
+def _e3_signature(r, kind, sched):
+    """Signature of a difference found by an E3 family.  The deferplan family knows one cause by its
+    circumstances: the two workers declare the same file static (a conflict under -j1) and, in the
+    differing schedule, a request arrived while its issuer was detached."""
+    if r["item"][0] == "deferplan" and kind == "rc-class" and r["meta"].get("requests") == ["static", "static"]:
+        by = r.get("by_schedule") or {}
+        prof = (r.get("profiles") or {}).get(sched) or {}
+        # the cause is established by the harness' clock: which step had a request ACCEPTED / completed
+        # between the restart of its creator and the creator's define_step that attaches it again
+        req = sorted(k.split(":", 1)[1] for k in prof if k.startswith("detached-request:"))
+        end = sorted(k.split(":", 1)[1] for k in prof if k.startswith("detached-completion:"))
+        refused = (by.get(sched) or ["", [], []])[2]
+        if by.get("j1", [""])[0].startswith("FAILED"):
+            other = by.get(sched, [""])[0]
+            if other == "ok" and len(req) >= 1:
+                # nothing was refused although the two workers claim one file: a claim made by a detached
+                # step was ignored / taken over
+                return "C02:noncommute:detached-issuer"
+            if other == "DRAINED" and refused and set(refused) <= set(req) | set(end):
+                # the refused worker was detached when it asked or when it completed: its failure is not counted
+                return "C02:noncommute:detached-issuer:failed-vs-pending"
+    return f"C02:e3:{kind}"
+
+
 def oracle(ctx):
     states = _states(ctx)
     # ---- E2: both orders on the real Workflow
@@ -366,12 +467,18 @@ def oracle(ctx):
                                 witness=dict(_wit(p), trace=[repr(o) for o in st["ops"]]))
             if v in ("commute", "both-reject"):
                 continue
-            if p["fresh"]:
-                ctx.add_failure("oracle", "both-orders", f"C02:noncommute:fresh:{kind}:{v}",
-                                f"two requests of different attached running steps that involve no stale node "
-                                f"do not commute on the real Workflow ({v})",
+            hz = sorted(set(p["hz"][0] + p["hz"][1]))
+            ctx.count(f"e2:hazard:{'+'.join(hz) or 'none'}:{v}")
+            if not hz:
+                # no known hazard class applies to either request: the pair has to commute.  (`fresh` pairs
+                # are a subset: issuers attached, no stale path at all, label absent.)
+                ctx.add_failure("oracle", "both-orders",
+                                f"C02:noncommute:{'fresh' if p['fresh'] else 'hazard-free'}:{kind}:{v}",
+                                f"two requests of different attached running steps to which none of the hazard "
+                                f"classes (stale volatile input, stale wired input, recycle, detached issuer) "
+                                f"applies do not commute on the real Workflow ({v})",
                                 witness=dict(_wit(p), trace=[repr(o) for o in st["ops"]]))
-            # outside the fragment: counted (see the witnesses / scenarios for the classes found)
+            # a hazard applies: counted per class (see the witnesses / scenarios for the classes found)
     # ---- E2: a re-executed step against a sibling's request, every arrival position
     for r in _reruns(ctx):
         if "skip" in r:
@@ -409,7 +516,7 @@ def oracle(ctx):
             ctx.add_failure("oracle", f"scenario:{name}", f"C02:scenario:{name}:setup",
                             "the first build of the scenario did not succeed", witness=r)
         elif r["j1"]["cls"] != r["j2"]["cls"]:
-            ctx.add_failure("oracle", f"scenario:{name}", w["signature"],
+            ctx.add_failure("oracle", f"scenario:{name}", _scenario_signature(name, r, w["signature"]),
                             f"same database, sources and plan: -j1 ends {r['j1']['cls']}, -j2 with the other "
                             f"arrival order ends {r['j2']['cls']} {r['j2']['rejected'] or r['j1']['rejected']}",
                             witness={"kind": "scenario", "name": name, "j1": r["j1"]["cls"], "j2": r["j2"]["cls"],
@@ -421,6 +528,25 @@ def oracle(ctx):
             ctx.add_failure("oracle", f"scenario:{name}", w["signature"] + ":graph",
                             "same database, sources and plan: both schedules succeed with different graphs",
                             witness={"kind": "scenario", "name": name})
+    # ---- a worker whose requests arrive while its creator runs AGAIN within one build (detached issuer)
+    ds = b3.run_detached_issuer_scenario()
+    ctx.case(("scenario", "detached_issuer"), nontrivial=True)
+    ctx.count(f"scenario:detached_issuer:j1={ds['j1']['cls']}:attached={ds['j4-attached']['cls']}:"
+              f"detached={ds['j4-detached']['cls']}:requests-while-detached={ds['j4-detached']['requests_while_detached']}")
+    if ds["j4-attached"]["cls"] != ds["j1"]["cls"]:
+        ctx.add_failure("oracle", "scenario:detached_issuer", "C02:scenario:detached_issuer:control",
+                        "the control schedule (requests before the creator is dispatched again) differs from -j1",
+                        witness=dict(ds, kind="detached-issuer-scenario"))
+    elif ds["j4-detached"]["cls"] != ds["j1"]["cls"]:
+        own = (ds["j1"]["cls"].startswith("FAILED") and ds["j4-detached"]["cls"] == "ok"
+               and len(ds["j4-detached"]["accepted_while_detached"]) >= 1)
+        ctx.add_failure("oracle", "scenario:detached_issuer",
+                        "C02:noncommute:detached-issuer" if own else
+                        f"C02:scenario:detached_issuer:other-difference:j1={ds['j1']['cls']}:j4={ds['j4-detached']['cls']}",
+                        f"one build from scratch: two workers declare s1.txt static; -j1 ends {ds['j1']['cls']} "
+                        f"{[x[3][:90] for x in ds['j1']['rejected']]}, -j4 with both requests arriving while the "
+                        f"workers are detached (their creator was deferred and is running again) ends "
+                        f"{ds['j4-detached']['cls']}", witness=dict(ds, kind="detached-issuer-scenario"))
     # ---- error text of a volatile output versus an input, at system level
     r = b3.run_text_scenario()
     ctx.case(("scenario", "volatile_vs_input_text"), nontrivial=True)
@@ -437,24 +563,44 @@ def oracle(ctx):
     _e3_schedules(ctx)
 
 
+MUST_REACH = [
+    "amend:before-producer-start", "amend:while-producer-runs", "amend:after-producer-stop",
+    "planners:shared:serial", "planners:shared:overlap-blocks", "planners:shared:rpcs-interleaved",
+    "creator:started-while-creator-runs:stopped-while-creator-runs",
+    "creator-reruns:started-before-creator-start:stopped-before-creator-start",
+    "creator-reruns:request-while-detached", "creator-reruns:completion-while-detached",
+    "creator-reruns:started-before-creator-start:stopped-after-creator-stop",
+    "hash-commit:between-declarations", "hash-commit:next-to-another-hash-commit",
+]
+
+
 def _e3_items(ctx):
-    no, ng = ctx.scale((70, 30), (300, 150))
+    no, ng = ctx.scale((32, 16), (300, 150))
+    nf, nd = ctx.scale((16, 12), (200, 150))
     shifts = ctx.scale([0], [0, 100, 200])
     items = []
     for sh in shifts:
         items += [("overlap", 10000 * ctx.seed + i, sh) for i in range(no)]
         items += [("gen", 5000 + 10000 * ctx.seed + i, sh) for i in range(ng)]
+        # the same projects with a gate between consecutive requests of every sub-plan: two planners that
+        # declare overlapping things interleaved REQUEST BY REQUEST (not only block by block)
+        items += [("overlapfine", 10000 * ctx.seed + i, sh) for i in range(nf)]
+    # a sub-plan that is deferred and executed again within ONE build while the workers it defined are
+    # still running: their requests and completions before the restart / while detached / after the
+    # re-definition / after the creator's second completion
+    items += [("deferplan", 10000 * ctx.seed + i, 0) for i in range(nd)]
     # timing bookkeeping (start/stop stamps behind amend()'s freshness test and the post-run input
     # check): consumer reads, producer stops, unrelated steps start and stop, consumer amends
-    items += [("timing", 10000 * ctx.seed + i, 0) for i in range(ctx.scale(30, 250))]
+    items += [("timing", 10000 * ctx.seed + i, 0) for i in range(ctx.scale(20, 250))]
     # second builds: re-executed sub-plans versus siblings that use what was declared under them
-    items += [("rerun", 10000 * ctx.seed + i, 0) for i in range(ctx.scale(30, 500))]
+    items += [("rerun", 10000 * ctx.seed + i, 0) for i in range(ctx.scale(20, 500))]
     return items
 
 
 def _e3_schedules(ctx):
     items = _e3_items(ctx)
     results = e3.pool_map(b3.run_case, items, nproc=6)
+    reached = {}
     if ctx.thorough():
         perm_items = [("overlap", 10000 * ctx.seed + i, 0) for i in range(80)]
         results += e3.pool_map(run_permutations, perm_items, nproc=6)
@@ -479,11 +625,29 @@ def _e3_schedules(ctx):
         if r["item"][0] == "rerun":
             ctx.count("e3:rerun:" + ("a worker was deferred in some schedule" if r["meta"]["deferred_somewhere"]
                                      else "no defer"))
+        # which interleavings the schedules went through (harness/c02_profile.py)
+        for k, v in sorted((r.get("profile") or {}).items()):
+            fam = "overlap" if r["item"][0] in ("overlap", "gen") else r["item"][0]
+            if k.startswith("hash:"):
+                a, b = k[5:].split("|")
+                k = "hash-commit:" + ("between-declarations" if a == b == "decl" else
+                                      "next-to-a-declaration" if "decl" in (a, b) else
+                                      "next-to-another-hash-commit" if "hash" in (a, b) else "other")
+            if k.startswith("detached-"):
+                continue                      # per-label bookkeeping behind the signatures, not a class
+            ctx.count(f"e3:interleaving:{fam}:{k}", v)
+            reached[k] = reached.get(k, 0) + v
         for kind, sched, detail in r["diffs"]:
-            ctx.add_failure("oracle", "e3-schedules", f"C02:e3:{kind}",
+            ctx.add_failure("oracle", "e3-schedules", _e3_signature(r, kind, sched),
                             f"project {r['item']} differs between schedule j1 and {sched}: {kind}",
                             witness={"kind": "e3-case", "item": list(r["item"]), "schedule": sched,
                                      "detail": detail, "project": r["project"]})
+    # the interleavings that matter must have been reached by this run (a generator that stops reaching
+    # them would leave the comparison vacuous); listed in the evidence, a miss is a note
+    for k in MUST_REACH:
+        ctx.count(f"e3:reached:{k}={'yes' if reached.get(k) else 'NO'}")
+        if not reached.get(k):
+            ctx.notes.append(f"E3 schedules did not reach the interleaving class {k}")
     if results and "crash" not in results[0]:
         ctx.sample({"e3_item": list(results[0]["item"]), "class": results[0]["cls"],
                     "max_running": results[0]["max_running"]})
@@ -522,8 +686,9 @@ def search(ctx):
         ctx.tier = old
     for st in states:
         for p in st["pairs"]:
-            if p["fresh"] and not p["fails_anyway"] and p["verdict"] not in ("commute", "both-reject"):
-                ctx.add_failure("oracle", "both-orders", f"C02:noncommute:fresh:{p['kind']}:{p['verdict']}",
+            if not (p["hz"][0] or p["hz"][1]) and not p["fails_anyway"] and p["verdict"] not in ("commute", "both-reject"):
+                ctx.add_failure("oracle", "both-orders",
+                                f"C02:noncommute:{'fresh' if p['fresh'] else 'hazard-free'}:{p['kind']}:{p['verdict']}",
                                 "found by the deeper search", witness=dict(_wit(p), trace=[repr(o) for o in st["ops"]]))
                 return
 
@@ -534,7 +699,7 @@ def replay(ctx, obj):
         name = w["name"]
         r = b3.run_scenario(name)
         if r["j1"]["cls"] != r["j2"]["cls"]:
-            ctx.add_failure("oracle", f"scenario:{name}", WITNESSES[name]["signature"],
+            ctx.add_failure("oracle", f"scenario:{name}", _scenario_signature(name, r, WITNESSES[name]["signature"]),
                             f"-j1 ends {r['j1']['cls']}, -j2 ends {r['j2']['cls']}", witness=w)
         return
     if w.get("kind") == "e2-rerun":
@@ -548,7 +713,13 @@ def replay(ctx, obj):
     if w.get("kind") == "e3-case":
         r = b3.run_case(tuple(w["item"]))
         for kind, sched, detail in r.get("diffs", []):
-            ctx.add_failure("oracle", "e3-schedules", f"C02:e3:{kind}", f"{sched}: {kind}", witness=w)
+            ctx.add_failure("oracle", "e3-schedules", _e3_signature(r, kind, sched), f"{sched}: {kind}", witness=w)
+        return
+    if w.get("kind") == "detached-issuer-scenario":
+        ds = b3.run_detached_issuer_scenario()
+        if ds["j4-detached"]["cls"] != ds["j1"]["cls"]:
+            ctx.add_failure("oracle", "scenario:detached_issuer", "C02:noncommute:detached-issuer",
+                            f"-j1 ends {ds['j1']['cls']}, -j4 ends {ds['j4-detached']['cls']}", witness=w)
         return
     correspondence(ctx)
     oracle(ctx)
